@@ -421,11 +421,13 @@ void ares_process_pending_write(ares_channel_t *channel)
    */
   channel->notify_pending_write = ARES_FALSE;
 
-  for (node = ares_slist_node_first(channel->servers); node != NULL;
-       node = ares_slist_node_next(node)) {
+  node = ares_slist_node_first(channel->servers);
+  while (node != NULL) {
     ares_server_t *server = ares_slist_node_val(node);
     ares_conn_t   *conn   = server->tcp_conn;
     ares_status_t  status;
+
+    node = ares_slist_node_next(node);
 
     if (conn == NULL) {
       continue;
@@ -435,6 +437,11 @@ void ares_process_pending_write(ares_channel_t *channel)
     status = ares_conn_flush(conn);
     if (status != ARES_SUCCESS) {
       handle_conn_error(conn, ARES_TRUE, status);
+      /* That re-sorted the server list and ran completion callbacks, which
+       * may have changed it: no node is known to be valid any more.  Start
+       * over; the connection that failed is gone and a connection that was
+       * flushed already has nothing left to write. */
+      node = ares_slist_node_first(channel->servers);
     }
   }
 
